@@ -155,6 +155,18 @@ def copies(idx, rep, rid):
                           "copy.deepcopy": lambda i, c, r, a, k: Obj("COPY"), "self._find_lines_and_headers": lambda i, c, r, a, k: None})
     ps = it.run_all(fm, args={"filename": "f"}, store={"self.pathed_lines_and_headers": {"f": (cached, ["a", "b"])}})
     okm = len(ps) == 1 and ps[0].result == ("return", Obj("COPY"))
+    # cold: first request for the file, the monitor comes from the cache file or a fresh count and is kept as the master copy
+    for src in ("cache", "count"):
+        itc = Interp(idx, types={"self": "FileCacher"}, unknown_calls="residual", inline_all={"FileCacher"},
+                     handlers={"CACHED_LM.copy": lambda i, c, r, a, k: Obj("COPY"), "copy.copy": lambda i, c, r, a, k: Obj("COPY"), "copy.deepcopy": lambda i, c, r, a, k: Obj("COPY"),
+                               "self._cached_lines_and_headers": lambda i, c, r, a, k, src=src: (cached, ["a", "b"]) if src == "cache" else (None, None),
+                               "self._cache_lines_and_headers": lambda i, c, r, a, k: None,
+                               "LineCounter": lambda i, c, r, a, k: Obj("lc"), "lc.get_lines_and_headers": lambda i, c, r, a, k: (cached, ["a", "b"])})
+        pc = itc.run_all(fm, args={"filename": "f"}, store={"self.pathed_lines_and_headers": {}})
+        okc = len(pc) == 1 and pc[0].result == ("return", Obj("COPY")) and pc[0].final_store.get("self.pathed_lines_and_headers", {}).get("f", (None,))[0] == cached
+        if not okc:
+            okm = False
+            ps = pc
     rep.check(okm, rid, f"{fm.file}::FileCacher.get_new_line_monitor returns a copy",
               f"returns {ps[0].result if ps else None}: every csvpath must get its own copy of the cached LineMonitor (a shared monitor carries line counters from one member into the next)", K.where(fm, fm.node))
     hdr = ["a", "b"]
